@@ -352,8 +352,15 @@ class OrderEval:
             p = path_of(e)
             if p is not None and p in self.env:
                 return self.env[p]
-            # attribute of a local that is an env-object (dict)
-            base = self.ev(e.value) if not (p and p.split(".")[0] not in self.locals and p.split(".")[0] not in self.env) else None
+            # attribute of a local / env entry that is an env-object (dict)
+            base = None
+            vp = path_of(e.value)
+            if vp is not None and (vp in self.env or vp in self.locals or vp.split(".")[0] in self.locals or vp.split(".")[0] in self.env
+                                   or any(k.startswith(vp.split(".")[0] + ".") and vp.startswith(k) for k in self.env)):
+                try:
+                    base = self.ev(e.value)
+                except NotTabulable:
+                    base = None
             if isinstance(base, dict) and e.attr in base:
                 return base[e.attr]
             if self.attr_default is not None:
